@@ -299,5 +299,6 @@ func TestVerifC33(t *testing.T) {
 				x.Fail("deadlock-after-restart", "scheduler verdict %s", verdict)
 			}
 			x.Outcome(fmt.Sprintf("writes=%d", n))
+			x.State(fmt.Sprintf("%v|%d|%d|%d|%d|%v|%v", progs, n, k, ackRetrieve, ackTransfer, proto.emitted, proto2.emitted))
 		})
 }
